@@ -60,3 +60,36 @@ M("C20", "twin-rename", "individual.py", EQ, """        worst = 0.0
             worst = max(abs(other.vector[k] - self.vector[k]), worst)
         return worst < 1e-10
 """, "H")
+
+# ---------------------------------------------------------------- C14
+WC_RESET = "                individual.costs_signed.insert(-1, sum(sensitivity))\n\n        self.individuals = []\n        self.to_evaluate = []\n"
+M("C14", "wc-no-reset", "operators.py", WC_RESET, "                individual.costs_signed.insert(-1, sum(sensitivity))\n")
+M("C14", "wc-reset-one-list", "operators.py", WC_RESET, "                individual.costs_signed.insert(-1, sum(sensitivity))\n\n        self.to_evaluate = []\n")
+M("C14", "grad-no-reset", "operators.py", "            #     individual.costs_signed.insert(-1, sensitivity)\n\n        self.individuals = []\n        self.to_evaluate = []\n", "            #     individual.costs_signed.insert(-1, sensitivity)\n\n        self.to_evaluate = []\n")
+M("C14", "wc-alias-vector", "operators.py", "                vector = individual.vector.copy()\n                vector[i] += sign * parameter['tol']", "                vector = individual.vector\n                vector[i] += sign * parameter['tol']")
+M("C14", "wc-copy-hoisted", "operators.py", "            parameter = parameters[i]\n            for sign in [-1, 1]:\n                vector = individual.vector.copy()\n", "            parameter = parameters[i]\n            vector = individual.vector.copy()\n            for sign in [-1, 1]:\n")
+M("C14", "wc-wrong-tol-axis", "operators.py", "            parameter = parameters[i]\n            for sign", "            parameter = parameters[0]\n            for sign")
+M("C14", "wc-one-sided", "operators.py", "for sign in [-1, 1]:", "for sign in [1, 1]:")
+M("C14", "wc-no-sign", "operators.py", "vector[i] += sign * parameter['tol']", "vector[i] += parameter['tol']")
+M("C14", "wc-axis-skip-first", "operators.py", "        self.individuals.append(individual)\n        for i in range(len(individual.vector)):", "        self.individuals.append(individual)\n        for i in range(1, len(individual.vector)):")
+M("C14", "wc-children-not-reset", "operators.py", "        parameters = self.algorithm.problem.parameters\n        individual.children = []\n", "        parameters = self.algorithm.problem.parameters\n")
+M("C14", "wc-append-marker", "operators.py", "individual.costs_signed.insert(-1, sum(sensitivity))", "individual.costs_signed.append(sum(sensitivity))")
+M("C14", "wc-insert-front", "operators.py", "individual.costs_signed.insert(-1, sum(sensitivity))", "individual.costs_signed.insert(0, sum(sensitivity))")
+M("C14", "wc-no-abs", "operators.py", "sensitivity.append(abs(individual.costs[0] - child.costs[0]))", "sensitivity.append(individual.costs[0] - child.costs[0])")
+M("C14", "wc-second-cost", "operators.py", "sensitivity.append(abs(individual.costs[0] - child.costs[0]))", "sensitivity.append(abs(individual.costs[0] - child.costs[-1]))")
+M("C14", "wc-acc-hoisted", "operators.py", "        for individual in self.individuals:\n            sensitivity = []\n", "        sensitivity = []\n        for individual in self.individuals:\n")
+M("C14", "wc-signed-missing", "operators.py", "                individual.costs.append(sum(sensitivity))\n                individual.costs_signed.insert(-1, sum(sensitivity))\n", "                individual.costs.append(sum(sensitivity))\n")
+M("C14", "grad-backward", "operators.py", "gradient[i] = ((child.costs[0] - individual.costs[0]) / self.delta)", "gradient[i] = ((individual.costs[0] - child.costs[0]) / self.delta)")
+M("C14", "grad-divisor", "operators.py", "gradient[i] = ((child.costs[0] - individual.costs[0]) / self.delta)", "gradient[i] = ((child.costs[0] - individual.costs[0]) / 1e-3)")
+M("C14", "grad-step", "operators.py", "        self.delta = 1e-4\n", "        self.delta = 1e-3\n")
+M("C14", "grad-index-stuck", "operators.py", "                gradient[i] = ((child.costs[0] - individual.costs[0]) / self.delta)\n                i += 1\n", "                gradient[i] = ((child.costs[0] - individual.costs[0]) / self.delta)\n")
+M("C14", "grad-eval-twice", "operators.py", "        n_params = len(self.individuals[0].vector)\n        super().evaluate(self.to_evaluate)\n", "        n_params = len(self.individuals[0].vector)\n        super().evaluate(self.to_evaluate)\n        super().evaluate_serial(self.to_evaluate)\n")
+M("C14", "grad-children-not-queued", "operators.py", "        self.to_evaluate.append(individual)\n        self.to_evaluate.extend(individual.children)\n\n    def evaluate(self, individuals):\n        for individual", "        self.to_evaluate.append(individual)\n\n    def evaluate(self, individuals):\n        for individual")
+M("C14", "wc-run-in-loop", "operators.py", "        for individual in individuals:\n            self.add(individual)\n        self.run()\n\n    def evaluate_scalar(self, x):\n        parent_individual", "        for individual in individuals:\n            self.add(individual)\n            self.run()\n\n    def evaluate_scalar(self, x):\n        parent_individual")
+# twins
+M("C14", "twin-clear", "operators.py", WC_RESET, "                individual.costs_signed.insert(-1, sum(sensitivity))\n\n        self.individuals = []\n        self.to_evaluate.clear()\n", "H")
+M("C14", "twin-inline-tol", "operators.py", "vector[i] += sign * parameter['tol']", "vector[i] += parameters[i]['tol'] * sign", "H")
+M("C14", "twin-list-copy", "operators.py", "                vector = individual.vector.copy()\n                vector[i] += sign", "                vector = list(individual.vector)\n                vector[i] += sign", "H")
+M("C14", "twin-sum-acc", "operators.py", "            sensitivity = []\n            for child in individual.children:\n                sensitivity.append(abs(individual.costs[0] - child.costs[0]))\n            individual.features['sensitivity'] = sum(sensitivity)\n\n            if len(individual.costs) > self.n:\n                individual.costs[-1] = sum(sensitivity)\n                individual.costs_signed[-2] = sum(sensitivity)\n            else:\n                individual.costs.append(sum(sensitivity))\n                individual.costs_signed.insert(-1, sum(sensitivity))\n",
+  "            total = 0.0\n            for child in individual.children:\n                total += abs(child.costs[0] - individual.costs[0])\n            individual.features['sensitivity'] = total\n\n            individual.costs.append(total)\n            individual.costs_signed.insert(-1, total)\n", "H")
+M("C14", "twin-enumerate", "operators.py", "            i = 0\n            for child in individual.children:\n                gradient[i] = ((child.costs[0] - individual.costs[0]) / self.delta)\n                i += 1\n", "            for i, child in enumerate(individual.children):\n                gradient[i] = (child.costs[0] - individual.costs[0]) / self.delta\n", "H")
